@@ -173,6 +173,76 @@ func sendDiscipline(f *ast.File) (bool, string) {
 	return ok, why
 }
 
+// reframeShape reads the body-frame loop of SendContent: the payload limit (frame-max minus an overhead, used only above
+// a guard), the cutting loop (while the rest is longer than the limit: send the first limit bytes, keep the rest; then
+// send the rest) and whether the stored (shared) frame objects are left untouched.
+func reframeShape(fd *ast.FuncDecl) (recut, copies bool, overhead, guard string, why string) {
+	overhead, guard = "0", "0"
+	if fd == nil || fd.Body == nil {
+		return false, false, overhead, guard, "SendContent not found"
+	}
+	copies = true
+	var limitOk, loopOk, tailOk bool
+	ast.Inspect(fd.Body, func(n ast.Node) bool {
+		switch x := n.(type) {
+		case *ast.AssignStmt:
+			for _, l := range x.Lhs {
+				if sel, ok := l.(*ast.SelectorExpr); ok && (sel.Sel.Name == "ChannelID" || sel.Sel.Name == "Payload") {
+					copies = false
+				}
+			}
+		case *ast.IfStmt:
+			// if channel.conn.maxFrameSize > G { maxPayload = int(channel.conn.maxFrameSize) - O }
+			if b, ok := x.Cond.(*ast.BinaryExpr); ok && b.Op == token.GTR && trlib.ExprString(b.X) == "channel.conn.maxFrameSize" && x.Else == nil && len(x.Body.List) == 1 {
+				if as, ok := x.Body.List[0].(*ast.AssignStmt); ok && len(as.Lhs) == 1 && len(as.Rhs) == 1 && trlib.ExprString(as.Lhs[0]) == "maxPayload" {
+					if r, ok := as.Rhs[0].(*ast.BinaryExpr); ok && r.Op == token.SUB && trlib.ExprString(r.X) == "int(channel.conn.maxFrameSize)" {
+						if g, ok := b.Y.(*ast.BasicLit); ok && g.Kind == token.INT {
+							if o, ok := r.Y.(*ast.BasicLit); ok && o.Kind == token.INT {
+								guard, overhead, limitOk = g.Value, o.Value, true
+							}
+						}
+					}
+				}
+			}
+		case *ast.RangeStmt:
+			if trlib.ExprString(x.X) != "message.Body" {
+				return true
+			}
+			for i, st := range x.Body.List {
+				f, ok := st.(*ast.ForStmt)
+				if !ok || f.Init != nil || f.Post != nil || f.Cond == nil {
+					continue
+				}
+				if trlib.ExprString(f.Cond) != "maxPayload > 0 && len(body) > maxPayload" || len(f.Body.List) != 2 {
+					continue
+				}
+				first, ok1 := f.Body.List[0].(*ast.ExprStmt)
+				second, ok2 := f.Body.List[1].(*ast.AssignStmt)
+				if ok1 && ok2 && strings.HasPrefix(callName(first.X), "channel.sendOutgoing") && strings.Contains(trlib.ExprString(first.X), "Payload: body[:maxPayload]") &&
+					strings.Contains(trlib.ExprString(first.X), "ChannelID: channel.id") &&
+					len(second.Lhs) == 1 && trlib.ExprString(second.Lhs[0]) == "body" && trlib.ExprString(second.Rhs[0]) == "body[maxPayload:]" {
+					loopOk = true
+				}
+				if i+1 == len(x.Body.List)-1 {
+					if last, ok := x.Body.List[i+1].(*ast.ExprStmt); ok && strings.HasPrefix(callName(last.X), "channel.sendOutgoing") &&
+						strings.Contains(trlib.ExprString(last.X), "Payload: body}") && strings.Contains(trlib.ExprString(last.X), "ChannelID: channel.id") {
+						tailOk = true
+					}
+				}
+			}
+		}
+		return true
+	})
+	recut = limitOk && loopOk && tailOk
+	if !recut {
+		why = fmt.Sprintf("SendContent: body-frame loop not in the recognised re-cutting shape (limit %v, loop %v, tail %v); ", limitOk, loopOk, tailOk)
+	}
+	if !copies {
+		why += "SendContent assigns to a field of a stored frame; "
+	}
+	return
+}
+
 func mustParse(c *trlib.Ctx, rel string) *ast.File {
 	f, err := c.Parse(rel)
 	if err != nil {
@@ -195,6 +265,11 @@ func gen(c *trlib.Ctx) error {
 	okS, whyS := startsLocked(trlib.FuncDecl(ch, "Channel.SendMethod"), "sendLock")
 	okC, whyC := startsLocked(trlib.FuncDecl(ch, "Channel.SendContent"), "sendLock")
 	add("send_method_and_content_locked", "SendMethod and SendContent are each one critical section of sendLock (C13)", okS && okC, whyS+whyC)
+
+	// 1b. body frames are re-cut to the receiver's frame-max and sent as copies (F79)
+	recut, copies, reOver, reGuard, whyR := reframeShape(trlib.FuncDecl(ch, "Channel.SendContent"))
+	add("body_frames_recut", "SendContent cuts every stored body frame to the payload limit of the receiving connection: while the rest is longer than the limit it sends the first limit bytes, then the rest (C13)", recut, whyR)
+	add("body_frames_sent_as_copies", "SendContent sends fresh frames under the sending channel's id and never writes to the stored frames that all copies of a message share (C13)", copies, whyR)
 
 	// 2. settle: the windows are released before anybody is woken
 	dq := trlib.FuncDecl(ch, "Channel.decQosAndConsumeNext")
@@ -411,6 +486,8 @@ func gen(c *trlib.Ctx) error {
 			bad = append(bad, f.name+": "+f.why)
 		}
 	}
+	sb.WriteString("From Coq Require Import NArith.\n\n")
+	sb.WriteString(fmt.Sprintf("(* SendContent: payload limit = frame-max - reframe_overhead, applied when frame-max > reframe_guard (else: no cutting) *)\nDefinition reframe_overhead : N := %s%%N.\nDefinition reframe_guard : N := %s%%N.\n\n", reOver, reGuard))
 	if err := c.Write(rel, sb.String()); err != nil {
 		return err
 	}
